@@ -117,6 +117,8 @@ def P_list():
     return [
         ("int(<d>) >= 1", lambda t: truthy_all([(m,) for m in D(t)], lambda m: int(m) >= 1)),                       # raises on 'x'
         ("int(<d>) == 1", lambda t: truthy_all([(m,) for m in D(t)], lambda m: int(m) == 1)),
+        ("1 == int(<d>)", lambda t: truthy_all([(m,) for m in D(t)], lambda m: 1 == int(m))),                          # the RIGHT operand raises on 'x'
+        ("2 >= int(<item>.<d>)", lambda t: truthy_all([(m,) for m in dot(I(t), "<d>")], lambda m: 2 >= int(m))),
         ("int(<d>) in (1, 2)", lambda t: truthy_all([(m,) for m in D(t)], lambda m: int(m) in (1, 2))),                 # an EXPRESSION constraint that raises on 'x'
         ("12 % int(<d>) == 0 or False", lambda t: truthy_all([(m,) for m in D(t)], lambda m: 12 % int(m) == 0 or False)),
         ("int(<item>.<d>) <= 1", lambda t: truthy_all([(m,) for m in dot(I(t), "<d>")], lambda m: int(m) <= 1)),
@@ -211,7 +213,7 @@ def run(tier="quick", seed=0, pid="C07"):
                 samples.append({"grammar": gname, "constraint": text, "trees": len(trees)})
     return {
         "evaluations": evaluations, "distinct_nontrivial": len(distinct),
-        "rule": ("50 constraint programs (rule / . / .. / [] / * / |..| selectors, and/or/not, comprehensions, forall/exists incl. nested and "
+        "rule": ("52 constraint programs (rule / . / .. / [] / * / |..| selectors, and/or/not, comprehensions, forall/exists incl. nested and "
                  "rebinding, sub-expressions that raise) x the words of three small grammars (quick: every ~2nd word; thorough: all), each "
                  "tree checked twice with the same constraint objects; distinct = distinct (program, word); all non-trivial"),
         "bound": "two grammars, words up to 9 atoms", "samples": samples, "violations": violations, "undecided": undecided,
